@@ -211,6 +211,9 @@ func (s *Storage) Start(ctx context.Context) (err error) {
 func (s *Storage) Shutdown(_ context.Context) (err error) {
 	close(s.done)
 
+	s.mu.Lock()
+	defer s.mu.Unlock()
+
 	return s.upstreamManager.close()
 }
 
